@@ -165,7 +165,7 @@ Section P.
        unfold bind, ret, lift; simpl;
        destruct (fx p s) as [[a s1]| | |] eqn:Ex; try reflexivity;
        apply Hx in Ex;
-       rewrite (binop_val_spec k) by (first [exact Hns | apply wf_has_ty; assumption | eapply norm_const_ty; eassumption]);
+       rewrite (binop_val_spec k) by (first [exact Hns | apply wf_has_ty; assumption | eapply norm_const_ty; [exact Hc | exact Hn]]);
        destruct (go_binop k op a c') as [v| | |] eqn:E; simpl; try reflexivity;
        rewrite coerce_typed by (eapply @go_binop_typed; exact E); reflexivity).
   Qed.
@@ -182,8 +182,393 @@ Section P.
        unfold bind, ret, lift; simpl;
        destruct (fy p s) as [[b s1]| | |] eqn:Ey; try reflexivity;
        apply Hy in Ey;
-       rewrite (binop_val_spec k) by (first [exact Hns | apply wf_has_ty; assumption | eapply norm_const_ty; eassumption]);
+       rewrite (binop_val_spec k) by (first [exact Hns | apply wf_has_ty; assumption | eapply norm_const_ty; [exact Hc | exact Hn]]);
        destruct (go_binop k op c' b) as [v| | |] eqn:E; simpl; try reflexivity;
        rewrite coerce_typed by (eapply @go_binop_typed; exact E); reflexivity).
+  Qed.
+
+  (* ---- unary ---- *)
+  Lemma go_unop_typed k op (a v : value) : wf_value F k a -> go_unop op a = Ok v -> forall z, v <> VUntyped z.
+  Proof.
+    intros Hw. destruct (wf_cases _ _ Hw) as [(x & -> & _)|[(f & -> & _)|[(x & -> & _)|(b & -> & _)]]];
+      destruct op; unfold Sem.go_unop; try discriminate; try (intros [= <-]; discriminate);
+      destruct (ik_of k); try discriminate; intros [= <-]; discriminate.
+  Qed.
+
+  Lemma sound_un op k (i : inputs) p s :
+    inputs_ok (TUn op k) i ->
+    run (roots_of (TUn op k) i) (closure_of_tmpl (TUn op k)) p s = spec_tmpl (TUn op k) i p s.
+  Proof.
+    intros Hx. destruct i as [fx fy c sh]. simpl in *.
+    unfold Model.run, Sem.denote. simpl. lets_assert.
+    unfold bind, ret, lift. simpl.
+    destruct (fx p s) as [[a s1]| | |] eqn:Ex; try reflexivity.
+    apply Hx in Ex.
+    destruct (go_unop op a) as [v| | |] eqn:E; simpl; try reflexivity.
+    rewrite coerce_typed by (eapply go_unop_typed; eassumption). reflexivity.
+  Qed.
+
+  (* ---- shifts ---- *)
+  Lemma shift_val_spec' k kc op (a c : value) : is_shift op = true ->
+    has_ty F (TK k) a = true -> has_ty F (TK kc) c = true -> is_integer kc = true -> binop_val op a c = go_shift F k op a c.
+  Proof.
+    intros Hs Ha Hc Hkc.
+    destruct (has_ty_inv _ _ Hc) as [[-> _]|[[-> _]|[[n [-> Hn]]|[y [-> Hy]]]]]; try discriminate;
+      try (destruct kc; discriminate).
+    destruct (has_ty_inv _ _ Ha) as [[-> [x ->]]|[[-> [x ->]]|[[x [-> Hx]]|[x [-> Hx]]]]];
+      destruct op; try discriminate; unfold Sem.binop_val, Sem.go_shift; try reflexivity; rewrite gokind_beq_refl; reflexivity.
+  Qed.
+
+  Definition shift_valid (op : binop) := match op with Shl | Shr => true | _ => false end.
+
+  Lemma sound_shift_vv op k (i : inputs) p s :
+    tmpl_valid (TShift op ShVV k) = true -> inputs_ok (TShift op ShVV k) i ->
+    run (roots_of (TShift op ShVV k) i) (closure_of_tmpl (TShift op ShVV k)) p s = spec_tmpl (TShift op ShVV k) i p s.
+  Proof.
+    intros Hv [Hx Hy]. destruct i as [fx fy c sh]. simpl in *.
+    apply andb_true_iff in Hv as [Hk Hop].
+    unfold Model.run, Sem.denote. simpl. lets_assert.
+    unfold bind, ret, lift. simpl.
+    destruct (fx p s) as [[a s1]| | |] eqn:Ex; try reflexivity.
+    destruct (fy p s1) as [[b s2]| | |] eqn:Ey; try reflexivity.
+    apply Hx in Ex. apply Hy in Ey.
+    rewrite (shift_val_spec' k GUint64) by (first [apply wf_has_ty; assumption | reflexivity | destruct op; try discriminate; reflexivity]).
+    destruct (go_shift F k op a b) as [v| | |] eqn:E; simpl; try reflexivity.
+    rewrite coerce_typed by (eapply @go_shift_typed; exact E). reflexivity.
+  Qed.
+
+  Lemma sound_shift_vc op k (i : inputs) p s :
+    tmpl_valid (TShift op ShVC k) = true -> inputs_ok (TShift op ShVC k) i ->
+    run (roots_of (TShift op ShVC k) i) (closure_of_tmpl (TShift op ShVC k)) p s = spec_tmpl (TShift op ShVC k) i p s.
+  Proof.
+    intros Hv [Hx Hc]. destruct i as [fx fy c sh]. simpl in *.
+    apply andb_true_iff in Hv as [Hk Hop].
+    unfold Model.run, Sem.denote. simpl. lets_assert.
+    unfold bind, ret, lift. simpl.
+    destruct (fx p s) as [[a s1]| | |] eqn:Ex; try reflexivity.
+    apply Hx in Ex.
+    rewrite (shift_val_spec' k GUint64) by (first [apply wf_has_ty; assumption | reflexivity | destruct op; try discriminate; reflexivity]).
+    destruct (go_shift F k op a c) as [v| | |] eqn:E; simpl; try reflexivity.
+    rewrite coerce_typed by (eapply @go_shift_typed; exact E). reflexivity.
+  Qed.
+
+  Lemma sound_shift_cv op k (i : inputs) p s :
+    tmpl_valid (TShift op ShCV k) = true -> inputs_ok (TShift op ShCV k) i ->
+    run (roots_of (TShift op ShCV k) i) (closure_of_tmpl (TShift op ShCV k)) p s = spec_tmpl (TShift op ShCV k) i p s.
+  Proof.
+    intros Hv [Hc Hy]. destruct i as [fx fy c sh]. simpl in *.
+    apply andb_true_iff in Hv as [Hk Hop].
+    unfold Model.run, Sem.denote. simpl. lets_const c Hc.
+    destruct (norm_const k c) as [c'| | |] eqn:Hn; try reflexivity; simpl.
+    unfold bind, ret, lift; simpl.
+    destruct (fy p s) as [[b s1]| | |] eqn:Ey; try reflexivity.
+    apply Hy in Ey.
+    rewrite (shift_val_spec' k GUint64) by (first [apply wf_has_ty; assumption | reflexivity | destruct op; try discriminate; reflexivity | eapply norm_const_ty; [exact Hc | exact Hn]]).
+    destruct (go_shift F k op c' b) as [v| | |] eqn:E; simpl; try reflexivity.
+    rewrite coerce_typed by (eapply @go_shift_typed; exact E). reflexivity.
+  Qed.
+
+  (* ---- powers of two ---- *)
+  Arguments Z.pow : simpl never.
+  Arguments Z.sub : simpl never.
+  Arguments Z.add : simpl never.
+  Arguments GoInt.wrap : simpl never.
+  Arguments GoInt.sub : simpl never.
+  Arguments GoInt.add : simpl never.
+  Arguments GoInt.shr : simpl never.
+  Arguments GoInt.shl : simpl never.
+  Arguments GoInt.neg : simpl never.
+  Arguments GoInt.and_ : simpl never.
+  Arguments bitlen : simpl never.
+  Arguments representable : simpl never.
+
+  Lemma ik_of_ikd k : is_integer k = true -> ik_of k = Some (ikd k).
+  Proof. destruct k; try discriminate; reflexivity. Qed.
+
+  Lemma bitlen_pow2 sh : 0 <= sh -> bitlen (2 ^ sh) = sh + 1.
+  Proof.
+    intros H. unfold bitlen. assert (0 < 2 ^ sh) by (apply Z.pow_pos_nonneg; lia).
+    destruct (Z.leb_spec (2 ^ sh) 0); [lia|]. rewrite Z.log2_pow2 by lia. reflexivity.
+  Qed.
+
+  Lemma pow2_le_64 sh : 0 <= sh <= 63 -> 2 ^ sh <= 2 ^ 63.
+  Proof. intros. apply Z.pow_le_mono_r; lia. Qed.
+
+  Lemma shift_let_val sh : 0 <= sh <= 63 -> GoInt.sub U8 (bitlen (2 ^ sh)) 1 = sh.
+  Proof.
+    intros H. rewrite bitlen_pow2 by lia. unfold GoInt.sub. replace (sh + 1 - 1) with sh by lia.
+    apply wrap_id. unfold in_range. change (imin U8) with 0. change (imax U8) with 255. lia.
+  Qed.
+
+  Lemma y1_let_val sh : 0 <= sh <= 63 -> GoInt.sub U64 (2 ^ sh) 1 = 2 ^ sh - 1.
+  Proof.
+    intros H. unfold GoInt.sub. apply wrap_id. pose proof (pow2_le_64 sh H).
+    assert (0 < 2 ^ sh) by (apply Z.pow_pos_nonneg; lia).
+    unfold in_range. change (imin U64) with 0. change (imax U64) with (2 * 2 ^ 63 - 1). lia.
+  Qed.
+
+  Lemma small_bounds ik : imin ik <= 0 /\ 127 <= imax ik.
+  Proof. destruct ik; split; vm_compute; intro H; discriminate H. Qed.
+
+  Lemma repr_small k z : is_integer k = true -> 0 <= z <= 127 -> representable k z = true.
+  Proof.
+    intros Hk Hz. unfold representable. rewrite ik_of_ikd by assumption. apply in_rangeb_spec.
+    unfold in_range. pose proof (small_bounds (ikd k)). lia.
+  Qed.
+
+  Lemma width_le_64 k : GoInt.width (ikd k) <= 64.
+  Proof. destruct k; simpl; lia. Qed.
+
+  (* evaluation of the lets of quoPow2 / remPow2 / mulPow2 *)
+  Definition pow2_roots k (fx : opfun) sh : cenv F := [(xeFun, CF F k fx); (EVar V_y, CV F (VInt GUint64 (2 ^ sh)))].
+
+  Lemma lets_shift k fx sh rest : 0 <= sh <= 63 ->
+    eval_lets (pow2_roots k fx sh) (shiftlet :: rest) =
+    eval_lets ((EVar V_shift, CV F (VInt GUint8 sh)) :: pow2_roots k fx sh) rest.
+  Proof.
+    intros H. simpl. unfold Sem.ceval. simpl. unfold bind, lift. simpl.
+    rewrite shift_let_val by lia. reflexivity.
+  Qed.
+
+  Lemma ceval_y1 (ce : cenv F) k sh : is_integer k = true -> 0 <= sh <= 63 ->
+    clookup F ce (EConv (TK k) (EBin Sub (EVar V_y) (ELit 1))) = None ->
+    clookup F ce (EVar V_y) = Some (CV F (VInt GUint64 (2 ^ sh))) ->
+    ceval ce (EConv (TK k) (EBin Sub (EVar V_y) (ELit 1))) = Some (CV F (VInt k (GoInt.wrap (ikd k) (2 ^ sh - 1)))).
+  Proof.
+    intros Hk H H1 H2. unfold Sem.ceval. rewrite H1. simpl. rewrite H2. unfold bind, lift, ret. simpl.
+    rewrite y1_let_val by lia. unfold Sem.convert. rewrite ik_of_ikd by assumption. reflexivity.
+  Qed.
+
+  Lemma binop_lit k op x z : is_integer k = true -> 0 <= z <= 127 -> is_shift op = false ->
+    binop_val op (VInt k x) (VUntyped z) = arith F k op x z.
+  Proof.
+    intros Hk Hz Hs. unfold Sem.binop_val. rewrite repr_small by assumption. destruct op; try discriminate; reflexivity.
+  Qed.
+  Lemma binop_int k op x y : is_shift op = false -> binop_val op (VInt k x) (VInt k y) = arith F k op x y.
+  Proof. intros Hs. unfold Sem.binop_val. rewrite gokind_beq_refl. destruct op; try discriminate; reflexivity. Qed.
+  Lemma shift_u8 k op x n : is_shift op = true -> binop_val op (VInt k x) (VInt GUint8 n) = shift F k op x false n.
+  Proof. intros Hs. unfold Sem.binop_val. destruct op; try discriminate; reflexivity. Qed.
+  Lemma shift_lit k op x n : is_shift op = true -> 0 <= n -> binop_val op (VInt k x) (VUntyped n) = shift F k op x false n.
+  Proof.
+    intros Hs Hn. unfold Sem.binop_val. destruct (Z.ltb_spec n 0); [lia|]. destruct op; try discriminate; reflexivity.
+  Qed.
+
+  Lemma wf_int k (a : value) : is_integer k = true -> wf_value F k a -> exists x, a = VInt k x /\ in_range (ikd k) x.
+  Proof.
+    intros Hk Hw. destruct (wf_cases _ _ Hw) as [(z & -> & _ & Hr)|[(f & -> & Hf)|[(x & -> & ->)|(b & -> & ->)]]]; eauto;
+      try discriminate. destruct k; discriminate.
+  Qed.
+
+  Lemma sound_quoPow2 k negy (i : inputs) p s :
+    tmpl_valid (TQuoPow2 k negy) = true -> inputs_ok (TQuoPow2 k negy) i ->
+    run (roots_of (TQuoPow2 k negy) i) (closure_of_tmpl (TQuoPow2 k negy)) p s = spec_tmpl (TQuoPow2 k negy) i p s.
+  Proof.
+    intros Hv [Hx Hsh]. destruct i as [fx fy c sh]. simpl in *.
+    apply andb_true_iff in Hv as [Hk Hneg].
+    pose proof (width_le_64 k) as Hw64.
+    fold (pow2_roots k fx sh).
+    destruct (is_signed k) eqn:Hsg.
+    - unfold Model.run, Sem.denote. cbn [c_lets c_params c_results c_body].
+      rewrite lets_shift by lia. simpl. lets_assert.
+      rewrite (ceval_y1 _ k sh) by (assumption || lia || reflexivity). simpl.
+      unfold bind, ret, lift. simpl.
+      destruct (fx p s) as [[a s1]| | |] eqn:Ex; try reflexivity.
+      apply Hx in Ex. destruct (wf_int _ _ Hk Ex) as (x & -> & Hr). simpl.
+      rewrite binop_lit by (assumption || lia || reflexivity). unfold arith. rewrite (ik_of_ikd k Hk). simpl.
+      pose proof (quoPow2_pos_sound (ikd k) x sh) as Qp. pose proof (quoPow2_neg_sound (ikd k) x sh) as Qn.
+      assert (Hsik : signed (ikd k) = true) by (destruct k; try discriminate; reflexivity).
+      specialize (Qp Hsik Hr Hsh). specialize (Qn Hsik Hr Hsh). unfold quoPow2_body in Qp, Qn.
+      destruct (x <? 0) eqn:Hneg0.
+      + rewrite binop_int by reflexivity. unfold arith. rewrite (ik_of_ikd k Hk). simpl.
+        destruct negy; simpl; unfold bind, ret, lift; simpl.
+        * rewrite shift_u8 by reflexivity. unfold shift. rewrite (ik_of_ikd k Hk). simpl.
+          unfold Sem.go_unop. rewrite (ik_of_ikd k Hk). simpl. rewrite Qn. reflexivity.
+        * rewrite shift_u8 by reflexivity. unfold shift. rewrite (ik_of_ikd k Hk). simpl. rewrite Qp. reflexivity.
+      + destruct negy; simpl; unfold bind, ret, lift; simpl.
+        * rewrite shift_u8 by reflexivity. unfold shift. rewrite (ik_of_ikd k Hk). simpl.
+          unfold Sem.go_unop. rewrite (ik_of_ikd k Hk). simpl. rewrite Qn. reflexivity.
+        * rewrite shift_u8 by reflexivity. unfold shift. rewrite (ik_of_ikd k Hk). simpl. rewrite Qp. reflexivity.
+    - (* unsigned: x >> shift *)
+      destruct negy; [discriminate|].
+      unfold Model.run, Sem.denote. cbn [c_lets c_params c_results c_body].
+      rewrite lets_shift by lia. simpl. lets_assert.
+      unfold bind, ret, lift. simpl.
+      destruct (fx p s) as [[a s1]| | |] eqn:Ex; try reflexivity.
+      apply Hx in Ex. destruct (wf_int _ _ Hk Ex) as (x & -> & Hr). simpl.
+      rewrite shift_u8 by reflexivity. unfold shift. rewrite (ik_of_ikd k Hk). simpl.
+      assert (Hu : signed (ikd k) = false) by (destruct k; try discriminate; reflexivity).
+      rewrite shr_div_pow2 by lia. unfold quo_total.
+      assert (0 < 2 ^ sh) by (apply Z.pow_pos_nonneg; lia).
+      unfold in_range, imin, imax in Hr. rewrite Hu in Hr.
+      rewrite Z.quot_div_nonneg by lia.
+      rewrite wrap_id; [reflexivity|].
+      unfold in_range, imin, imax. rewrite Hu. split; [apply Z.div_pos; lia|].
+      assert (x / 2 ^ sh <= x) by (apply Z.div_le_upper_bound; nia). lia.
+  Qed.
+
+  Lemma sound_remPow2 k (i : inputs) p s :
+    tmpl_valid (TRemPow2 k) = true -> inputs_ok (TRemPow2 k) i ->
+    run (roots_of (TRemPow2 k) i) (closure_of_tmpl (TRemPow2 k)) p s = spec_tmpl (TRemPow2 k) i p s.
+  Proof.
+    intros Hk [Hx Hsh]. destruct i as [fx fy c sh]. simpl in *.
+    pose proof (width_le_64 k) as Hw64.
+    fold (pow2_roots k fx sh).
+    destruct (is_signed k) eqn:Hsg.
+    - unfold Model.run, Sem.denote. simpl. lets_assert.
+      rewrite (ceval_y1 _ k sh) by (assumption || lia || reflexivity). simpl.
+      unfold bind, ret, lift. simpl.
+      destruct (fx p s) as [[a s1]| | |] eqn:Ex; try reflexivity.
+      apply Hx in Ex. destruct (wf_int _ _ Hk Ex) as (x & -> & Hr). simpl.
+      rewrite binop_lit by (assumption || lia || reflexivity). unfold arith. rewrite (ik_of_ikd k Hk). simpl.
+      assert (Hsik : signed (ikd k) = true) by (destruct k; try discriminate; reflexivity).
+      pose proof (remPow2_signed_sound (ikd k) x sh Hsik Hr Hsh) as R. unfold remPow2_body in R.
+      destruct (0 <=? x) eqn:Hge; simpl; unfold bind, ret, lift; simpl.
+      + rewrite binop_int by reflexivity. unfold arith. rewrite (ik_of_ikd k Hk). simpl. rewrite R. reflexivity.
+      + unfold Sem.go_unop. rewrite (ik_of_ikd k Hk). simpl.
+        rewrite binop_int by reflexivity. unfold arith. rewrite (ik_of_ikd k Hk). simpl.
+        rewrite (ik_of_ikd k Hk). simpl. rewrite R. reflexivity.
+    - unfold Model.run, Sem.denote. simpl. lets_assert.
+      rewrite (ceval_y1 _ k sh) by (assumption || lia || reflexivity). simpl.
+      unfold bind, ret, lift. simpl.
+      destruct (fx p s) as [[a s1]| | |] eqn:Ex; try reflexivity.
+      apply Hx in Ex. destruct (wf_int _ _ Hk Ex) as (x & -> & Hr). simpl.
+      rewrite binop_int by reflexivity. unfold arith. rewrite (ik_of_ikd k Hk). simpl.
+      assert (Hu : signed (ikd k) = false) by (destruct k; try discriminate; reflexivity).
+      rewrite (remPow2_unsigned_sound (ikd k) x sh Hu Hr Hsh). reflexivity.
+  Qed.
+
+  Lemma sound_mulPow2 k negy lit (i : inputs) p s :
+    tmpl_valid (TMulPow2 k negy lit) = true -> inputs_ok (TMulPow2 k negy lit) i ->
+    run (roots_of (TMulPow2 k negy lit) i) (closure_of_tmpl (TMulPow2 k negy lit)) p s = spec_tmpl (TMulPow2 k negy lit) i p s.
+  Proof.
+    intros Hv [Hx Hsh]. destruct i as [fx fy c sh]. simpl in *.
+    apply andb_true_iff in Hv as [Hv Hlit]. apply andb_true_iff in Hv as [Hk Hneg].
+    fold (pow2_roots k fx sh).
+    destruct negy; [destruct lit; [discriminate|]|destruct lit as [z|]].
+    - unfold Model.run, Sem.denote. cbn [closure_of_tmpl c_lets c_params c_results c_body].
+      rewrite lets_shift by lia. simpl. lets_assert.
+      unfold bind, ret, lift. simpl.
+      destruct (fx p s) as [[a s1]| | |] eqn:Ex; try reflexivity.
+      apply Hx in Ex. destruct (wf_int _ _ Hk Ex) as (x & -> & Hr). simpl.
+      rewrite shift_u8 by reflexivity. unfold shift. rewrite (ik_of_ikd k Hk). simpl.
+      unfold Sem.go_unop. rewrite (ik_of_ikd k Hk). simpl.
+      rewrite mulPow2_neg_sound by lia. reflexivity.
+    - simpl in Hlit. apply Z.leb_le in Hlit.
+      unfold Model.run, Sem.denote. simpl. lets_assert.
+      unfold bind, ret, lift. simpl.
+      destruct (fx p s) as [[a s1]| | |] eqn:Ex; try reflexivity.
+      apply Hx in Ex. destruct (wf_int _ _ Hk Ex) as (x & -> & Hr). simpl.
+      rewrite shift_lit by (reflexivity || lia). unfold shift. rewrite (ik_of_ikd k Hk). simpl.
+      rewrite mulPow2_pos_sound by lia. reflexivity.
+    - unfold Model.run, Sem.denote. cbn [closure_of_tmpl c_lets c_params c_results c_body].
+      rewrite lets_shift by lia. simpl. lets_assert.
+      unfold bind, ret, lift. simpl.
+      destruct (fx p s) as [[a s1]| | |] eqn:Ex; try reflexivity.
+      apply Hx in Ex. destruct (wf_int _ _ Hk Ex) as (x & -> & Hr). simpl.
+      rewrite shift_u8 by reflexivity. unfold shift. rewrite (ik_of_ikd k Hk). simpl.
+      rewrite mulPow2_pos_sound by lia. reflexivity.
+  Qed.
+
+  (* Expr.AsUint64: the shift-count conversion; a negative signed count panics *)
+  Lemma sound_asU64 k (i : inputs) p s :
+    tmpl_valid (TAsU64 k) = true -> inputs_ok (TAsU64 k) i ->
+    run (roots_of (TAsU64 k) i) (closure_of_tmpl (TAsU64 k)) p s = spec_tmpl (TAsU64 k) i p s.
+  Proof.
+    intros Hk Hx. destruct i as [fx fy c sh]. simpl in *.
+    assert (Hlk : clookup F [(eFun, CF F k fx)] (EAssert (TFun k) eFun) = None) by reflexivity.
+    assert (Hce : ceval [(eFun, CF F k fx)] (EAssert (TFun k) eFun) = Some (CF F k fx)).
+    { unfold Sem.ceval. rewrite Hlk. simpl. rewrite gokind_beq_refl. reflexivity. }
+    pose proof (width_le_64 k) as Hw64.
+    destruct (is_signed k) eqn:Hsg.
+    - unfold Model.run, Sem.denote. cbn [closure_of_tmpl c_lets c_params c_results c_body eval_lets].
+      try rewrite Hsg. cbn [c_lets c_params c_results c_body Sem.eval_lets]. rewrite Hce. simpl.
+      unfold bind, ret, lift. simpl.
+      destruct (fx p s) as [[a s1]| | |] eqn:Ex; try reflexivity.
+      apply Hx in Ex. destruct (wf_int _ _ Hk Ex) as (x & -> & Hr). simpl.
+      rewrite binop_lit by (assumption || lia || reflexivity). unfold arith. rewrite (ik_of_ikd k Hk). simpl.
+      destruct (x <? 0) eqn:Hneg0; simpl; [reflexivity|].
+      unfold bind, ret, lift. simpl. unfold Sem.convert. simpl.
+      apply Z.ltb_ge in Hneg0.
+      rewrite wrap_id; [reflexivity|].
+      assert (Hsik : signed (ikd k) = true) by (destruct k; try discriminate; reflexivity).
+      unfold in_range, imin, imax in *. rewrite Hsik in Hr. change (signed U64) with false. cbv iota.
+      assert (half (ikd k) <= 2 ^ 63) by (unfold half; apply Z.pow_le_mono_r; lia).
+      change (modulus U64) with (2 * 2 ^ 63). lia.
+    - unfold Model.run, Sem.denote. cbn [closure_of_tmpl c_lets c_params c_results c_body eval_lets].
+      try rewrite Hsg. cbn [c_lets c_params c_results c_body Sem.eval_lets]. rewrite Hce. simpl.
+      unfold bind, ret, lift. simpl.
+      destruct (fx p s) as [[a s1]| | |] eqn:Ex; try reflexivity.
+      apply Hx in Ex. destruct (wf_int _ _ Hk Ex) as (x & -> & Hr). simpl.
+      unfold Sem.convert. simpl.
+      assert (Hu : signed (ikd k) = false) by (destruct k; try discriminate; reflexivity).
+      rewrite wrap_id; [reflexivity|].
+      unfold in_range, imin, imax in *. rewrite Hu in Hr. change (signed U64) with false. cbv iota.
+      assert (modulus (ikd k) <= 2 ^ 64) by (unfold modulus; apply Z.pow_le_mono_r; lia).
+      change (modulus U64) with (2 ^ 64). lia.
+  Qed.
+
+  Lemma sound_asU64const (i : inputs) p s :
+    inputs_ok TAsU64Const i ->
+    run (roots_of TAsU64Const i) (closure_of_tmpl TAsU64Const) p s = spec_tmpl TAsU64Const i p s.
+  Proof.
+    intros Hc. destruct i as [fx fy c sh]. simpl in *.
+    unfold Model.run, Sem.denote. simpl. unfold bind, ret, lift. simpl.
+    rewrite coerce_typed by (eapply wf_not_untyped; exact Hc). reflexivity.
+  Qed.
+
+  (* ---- every template ---- *)
+  Theorem tmpl_sound t (i : inputs) p s :
+    tmpl_valid t = true -> inputs_ok t i ->
+    run (roots_of t i) (closure_of_tmpl t) p s = spec_tmpl t i p s.
+  Proof.
+    intros Hv Hi. destruct t.
+    - destruct sh; [apply sound_bin_vv | apply sound_bin_vc | apply sound_bin_cv | discriminate]; assumption.
+    - destruct sh; [apply sound_shift_vv | apply sound_shift_vc | apply sound_shift_cv | discriminate]; assumption.
+    - apply sound_un; assumption.
+    - apply sound_mulPow2; assumption.
+    - apply sound_quoPow2; assumption.
+    - apply sound_remPow2; assumption.
+    - apply sound_asU64; assumption.
+    - apply sound_asU64const; assumption.
+  Qed.
+
+  (* soundness of the per-row checker *)
+  Theorem entry_ok_sound e : entry_ok e = true ->
+    exists t, classify e = Some t /\ tmpl_valid t = true /\
+      forall (i : inputs) p s, inputs_ok t i -> run (roots_of t i) (closure_of e) p s = spec_tmpl t i p s.
+  Proof.
+    unfold entry_ok. destruct (classify e) as [t|]; [|discriminate].
+    intros H. apply andb_true_iff in H as [Hv Hc]. apply closure_beq_eq in Hc.
+    exists t. repeat split; auto. intros i p s Hi. rewrite Hc. apply tmpl_sound; assumption.
+  Qed.
+
+  (* integer division: the specification panics exactly on a zero divisor *)
+  Lemma div0_iff k op x y : is_integer k = true -> (op = Quo \/ op = Rem) ->
+    (go_binop k op (VInt k x) (VInt k y) = Panic PDiv0 <-> y = 0).
+  Proof.
+    intros Hk Hop. unfold Sem.go_binop. rewrite !gokind_beq_refl. simpl. unfold arith. rewrite (ik_of_ikd k Hk).
+    destruct Hop as [-> | ->]; unfold GoInt.quo, GoInt.rem; destruct (Z.eqb_spec y 0); split; intro H; try reflexivity; try discriminate; congruence.
+  Qed.
+
+  (* shift count conversion: panics exactly for a negative count of a signed kind *)
+  Lemma negshift_iff k (i : inputs) p s n s1 : in_fx F i p s = Ok (VInt k n, s1) ->
+    (spec_tmpl (TAsU64 k) i p s = Panic PNegShift <-> (is_signed k = true /\ n < 0)).
+  Proof.
+    intros Hfx. destruct i as [fx fy c sh]. simpl in *. unfold bind. rewrite Hfx. simpl.
+    destruct (is_signed k); simpl; [destruct (Z.ltb_spec n 0) as [Hlt|Hge]|]; split; intro Hq; try reflexivity; try discriminate;
+      try (split; [reflexivity|assumption]); destruct Hq; try discriminate; lia.
+  Qed.
+
+  (* x << y with y of a signed kind, through Expr.AsUint64: composition of the two table rows *)
+  Lemma shift_signed_count k kc op (a : value) n (s : state F) :
+    is_integer kc = true -> shift_valid op = true ->
+    go_shift F k op a (VInt kc n) =
+      if is_signed kc && (n <? 0) then (match a with VInt ka _ => if gokind_beq ka k then (match ik_of k with Some _ => Panic PNegShift | None => Stuck end) else Stuck | _ => Stuck end)
+      else go_shift F k op a (VInt GUint64 n).
+  Proof.
+    intros Hkc Hop. unfold Sem.go_shift. destruct a; try (destruct (is_signed kc && (n <? 0)); reflexivity).
+    rewrite Hkc. simpl. destruct (gokind_beq k0 k); simpl; [|destruct (is_signed kc && (n <? 0)); reflexivity].
+    unfold shift. destruct (ik_of k); [|destruct (is_signed kc && (n <? 0)); reflexivity].
+    destruct (is_signed kc && (n <? 0)); reflexivity.
   Qed.
 End P.
